@@ -1,4 +1,6 @@
 import ClusterVerif.Lemmas.C01
+import ClusterVerif.Lemmas.C01Commit
+import ClusterVerif.Gen.C01Commit
 
 /-!
 # C01 — Raft: every replica's pinset equals the committed pin/unpin sequence
@@ -123,16 +125,23 @@ theorem some_prefix_fails : ¬ some_prefix_full := by
 
 def decode_total : Prop := ∀ o : Op, o.decodable = true
 
-theorem decode_total_partial (o : Op) (h : o.thePin.opts.origins = []) : o.decodable = true := by
+theorem decode_total_partial (o : Op) (h : o.thePin.opts.origins = []) (hc : o.thePin.cid ≠ undefCid)
+    (hr : o.thePin.ref ≠ some undefCid) : o.decodable = true := by
   unfold Op.decodable
   rw [h]
-  rfl
+  simp [hc, hr]
 
 def originsPin : Pin := { pinCid 1 with opts := { (pinCid 1).opts with origins := [3] } }
 
 theorem decode_total_fails : ¬ decode_total := by
   intro h
   exact absurd (h (.pin originsPin)) (by decide)
+
+/-- nor does a pin whose reference is `cid.Undef` (what the first shard pin of a sharded add carried
+    before 9d8b946), nor one without a cid -/
+theorem decode_total_fails_undef :
+    (Op.pin { pinCid 1 with ref := some undefCid }).decodable = false ∧ (Op.unpin (pinCid undefCid)).decodable = false := by
+  decide
 
 /-- `caught_up_exact` without the restriction to decodable histories -/
 def caught_up_exact_full : Prop :=
@@ -268,3 +277,87 @@ example : holds [Op.pin (pinCid 1), .unpin (pinCid 1), .pin (pinCid 2)]
 example : holds k09Ops (modelTrace k09Ops (initSys 1) k09Evs) = false := by decide
 
 end CV.C01
+
+/-! ### the commit path: acknowledged ⇒ committed
+
+`Commit.commit rs os retries oracle` models `commit()` (LogPin / LogUnpin) and, with the same skeleton,
+`AddPeer` / `RmPeer`, over an oracle of attempt outcomes; `Gen.*Shape` are the statement skeletons the
+translator `harness/extract_c01` read off today's `consensus/raft/consensus.go`. -/
+namespace CV.C01.Commit
+
+/-- the source has the skeleton the model was written for (re-checked against every tree) -/
+theorem extracted_shapes :
+    Gen.redirectShape = expectedRedir ∧ Gen.commitShape = expectedOuter ∧
+    Gen.addPeerShape = expectedOuter ∧ Gen.rmPeerShape = expectedOuter ∧
+    Gen.facts.all (·.2) = true := by decide
+
+/-- LogPin / LogUnpin return nil only if some attempt really committed the operation: the last attempt
+    it went through was a successful local apply or a forward the leader executed, and no earlier one was
+    (nothing is committed twice by retrying). -/
+theorem ack_implies_some_attempt_committed (retries : Nat) (oracle : List Outcome)
+    (h : (commit Gen.redirectShape Gen.commitShape retries oracle).err = false) :
+    ∃ p s, (commit Gen.redirectShape Gen.commitShape retries oracle).consumed = p ++ [s] ∧
+      s.success = true ∧ ∀ x ∈ p, x.success = false := by
+  rw [extracted_shapes.1, extracted_shapes.2.1] at h ⊢
+  rcases (commit_post retries oracle).2.2.1 h with ⟨p, s, hp, hs, hn⟩ | ⟨_, _, h0⟩
+  · exact ⟨p, s, hp, hs, hn⟩
+  · cases h0
+
+/-- the same for `AddPeer` and `RmPeer`, which go through `redirectToLeader` with the same skeleton -/
+theorem ack_implies_some_attempt_committed_peers (retries : Nat) (oracle : List Outcome) :
+    ((commit Gen.redirectShape Gen.addPeerShape retries oracle).err = false →
+      ∃ x ∈ (commit Gen.redirectShape Gen.addPeerShape retries oracle).consumed, x.success = true) ∧
+    ((commit Gen.redirectShape Gen.rmPeerShape retries oracle).err = false →
+      ∃ x ∈ (commit Gen.redirectShape Gen.rmPeerShape retries oracle).consumed, x.success = true) := by
+  rw [extracted_shapes.1, extracted_shapes.2.2.1, extracted_shapes.2.2.2.1]
+  have key : (commit expectedRedir expectedOuter retries oracle).err = false →
+      ∃ x ∈ (commit expectedRedir expectedOuter retries oracle).consumed, x.success = true := by
+    intro h
+    rcases (commit_post retries oracle).2.2.1 h with ⟨p, s, hp, hs, _⟩ | ⟨_, _, h0⟩
+    · exact ⟨s, by rw [hp]; simp, hs⟩
+    · cases h0
+  exact ⟨key, key⟩
+
+/-- when no attempt succeeds the caller is told so — and conversely an error return means that none of
+    the attempts this call went through committed anything -/
+theorem all_fail_reports_error (retries : Nat) (oracle : List Outcome) :
+    (commit Gen.redirectShape Gen.commitShape retries oracle).err = true ↔
+    ∀ x ∈ (commit Gen.redirectShape Gen.commitShape retries oracle).consumed, x.success = false := by
+  rw [extracted_shapes.1, extracted_shapes.2.1]
+  constructor
+  · exact (commit_post retries oracle).2.2.2
+  · intro hn
+    cases herr : (commit expectedRedir expectedOuter retries oracle).err with
+    | true => rfl
+    | false =>
+      rcases (commit_post retries oracle).2.2.1 herr with ⟨p, s, hp, hs, _⟩ | ⟨_, _, h0⟩
+      · have := hn s (by rw [hp]; simp)
+        rw [hs] at this; cases this
+      · cases h0
+
+/-- retry bound: the attempts are taken from the oracle in order, at most (CommitRetries+1)² of them -/
+theorem retry_bound (retries : Nat) (oracle : List Outcome) :
+    (commit Gen.redirectShape Gen.commitShape retries oracle).consumed <+: oracle ∧
+    (commit Gen.redirectShape Gen.commitShape retries oracle).consumed.length ≤ (retries + 1) * (retries + 1) := by
+  rw [extracted_shapes.1, extracted_shapes.2.1]
+  exact ⟨(commit_post retries oracle).1, (commit_post retries oracle).2.1⟩
+
+/-- every forward fails, CommitRetries+1 times: exactly that many attempts, and an error -/
+example : commit Gen.redirectShape Gen.commitShape 1 [.fwdErr, .fwdErr, .fwdOk] =
+    { err := true, consumed := [.fwdErr, .fwdErr] } := by decide
+/-- the last retry gets through -/
+example : commit Gen.redirectShape Gen.commitShape 1 [.fwdErr, .fwdOk] =
+    { err := false, consumed := [.fwdErr, .fwdOk] } := by decide
+/-- leadership comes and goes -/
+example : commit Gen.redirectShape Gen.commitShape 1 [.fwdErr, .selfApplyErr, .fwdErr, .selfApplyOk] =
+    { err := false, consumed := [.fwdErr, .selfApplyErr, .fwdErr, .selfApplyOk] } := by decide
+
+/-- why the assignment matters: were the RPC result declared (`:=`) instead of assigned, a call whose
+    forwards all fail would be acknowledged although nothing was committed -/
+theorem shadowed_forward_acks_uncommitted :
+    ∃ retries oracle,
+      (commit { expectedRedir with fwdKept := false } expectedOuter retries oracle).err = false ∧
+      ∀ x ∈ (commit { expectedRedir with fwdKept := false } expectedOuter retries oracle).consumed, x.success = false :=
+  ⟨1, [.fwdErr, .fwdErr], by decide⟩
+
+end CV.C01.Commit
